@@ -149,7 +149,7 @@ class Runner(object):
         if valid_cfg and len(R) >= len(P) and sparse(script) and timeout >= 2 and not any(rtox or []):
             exact = o['ini'] == exp_i[:len(P)] and o['tgt'][:len(P)] == exp_t
             if not exact:
-                # the one input class the tree as it is does not recover (request_retransmission rejects a
+                # own key for the class repaired by c04-nak-ack-retransmit-chained (request_retransmission rejected a
                 # retransmitted ACK): the conversation ends with  INF(more) delivered / ACK corrupted /
                 # NAK delivered / ACK delivered / ProtocolError
                 dep = [(d, pdu_kind(h, btx), ft, h, btx) for d, h, ft, btx, _, r in o['frames'] if r >= o['base']]
@@ -289,7 +289,7 @@ def main():
     run.conv(cfg_(did=5, lri=3), [b'\x01'], [b'\x11' * 251], [], kind='corpus')          # length byte 256: struct.error
     run.conv(c, [b'\x01' * 3, b'\x02'], [b'\x11', b'\x12'], [('L', 'D')], kind='corpus')  # ATN without DID is ignored
     run.conv(c, [b'\x01' * 3, b'\x02'], [b'\x11', b'\x12'], [('D', 'L')], kind='corpus')
-    run.conv(cfg_(), [b'\x01' * 62, b'\x02'], [b'\x11', b'\x12'], [('D', 'C')], kind='corpus')   # corrupted ACK (open finding)
+    run.conv(cfg_(), [b'\x01' * 62, b'\x02'], [b'\x11', b'\x12'], [('D', 'C')], kind='corpus')   # corrupted ACK
     run.conv(cfg_(), [b'\x01' * 62, b'\x02' * 3, b'\x03' * 2, b'\x04'], [b'\x11' * 63, b'\x12' * 2, b'\x13', b'\x14'],
              [('D', 'D')] * 4 + [('D', 'L')], rtox=[0, 1, 0, 2], kind='corpus')         # RTOX byte delivered as payload
     run.conv(cfg_(), [b'\x01\x02'], [b'\x03'], [('L', 'D'), ('D', 'L'), ('D', 'L')], kind='corpus')  # release in first exchange
